@@ -495,7 +495,7 @@ func TestC07Deep(t *testing.T) {
 		_ = w.Apply(lz4.BlockSizeOption(lz4.Block64Kb))
 		_, _ = w.Write(opData(200000, 7))
 		_ = w.Close()
-		for _, conc := range []int{math.MaxInt, math.MaxInt / 2, 1 << 50, 1<<16 + 1} {
+		for _, conc := range []int{math.MaxInt, math.MaxInt / 2, math.MaxInt >> 13, 1<<16 + 1} {
 			for _, wt := range []bool{false, true} {
 				cases = append(cases, c07Case{Kind: "random", Bytes: sink.Buf, Conc: conc, WriteTo: wt, Sizes: []int{4096}})
 			}
